@@ -94,6 +94,7 @@ type Param struct {
 	Required bool
 	Schema   *Schema
 	Ref      string // components.parameters name; when set the rest describes the target
+	Desc     string
 }
 
 func (p Param) Doc() map[string]interface{} {
@@ -107,6 +108,9 @@ func (p Param) InlineDoc() map[string]interface{} {
 	m := map[string]interface{}{"name": p.Name, "in": p.In, "schema": p.Schema.Doc()}
 	if p.Required || p.In == "path" {
 		m["required"] = true
+	}
+	if p.Desc != "" {
+		m["description"] = p.Desc
 	}
 	return m
 }
@@ -146,6 +150,7 @@ type Header struct {
 	Required bool
 	Schema   *Schema
 	Ref      string // components.headers
+	Desc     string
 }
 
 type Response struct {
@@ -194,6 +199,7 @@ type Spec struct {
 	CompHeaders   map[string]Header
 	CompResponses map[string]Response // Ref field = alias target
 	CompBodies    map[string]Body
+	InfoDesc      string
 }
 
 func reqDoc(rs []Requirement) []interface{} {
@@ -215,6 +221,9 @@ func headerDoc(h Header) map[string]interface{} {
 	m := map[string]interface{}{"schema": h.Schema.Doc()}
 	if h.Required {
 		m["required"] = true
+	}
+	if h.Desc != "" {
+		m["description"] = h.Desc
 	}
 	return m
 }
@@ -265,6 +274,9 @@ func (s *Spec) Doc() []byte {
 	doc := map[string]interface{}{
 		"openapi": "3.0.0",
 		"info":    map[string]interface{}{"title": "verif", "version": "1"},
+	}
+	if s.InfoDesc != "" {
+		doc["info"].(map[string]interface{})["description"] = s.InfoDesc
 	}
 	if s.ServerURL != "" {
 		sv := map[string]interface{}{"url": s.ServerURL}
